@@ -252,7 +252,7 @@ def _guard_by_cases(rd: Reader, width: int):
     return tuple(out)
 
 
-def _case_env(rd: Reader, L: int):
+def _case_env(rd: Reader, L: int, empty: bool = False):
     """truth assignment for the world 'non-empty file, every row has L
     fields, no conversion error'"""
     first_len = tm.call(tm.glob("builtins.len"),
@@ -261,7 +261,7 @@ def _case_env(rd: Reader, L: int):
     if True:
         def env(a, L=L):
             if a is rd.raw:
-                return True
+                return not empty
             if a.op == "exc":
                 return False      # no conversion error: the shape guards only
             if is_call_to(a, "builtins.any", "builtins.all") and \
@@ -276,7 +276,9 @@ def _case_env(rd: Reader, L: int):
             if a.op == "cmp":
                 def val(t):
                     if t is first_len:
-                        return L
+                        return None if empty else L
+                    if t is nonempty and empty:
+                        return 0
                     if is_call_to(t, "builtins.len") and len(t.args[1]) == 1 \
                             and t.args[1][0].op == "elem" and \
                             t.args[1][0].args[0] is rd.raw:
@@ -285,6 +287,14 @@ def _case_env(rd: Reader, L: int):
                         return 5
                     if tm.is_const(t) and isinstance(tm.const_val(t), int):
                         return tm.const_val(t)
+                    if t.op == "ite":
+                        # len(rows[0]) if rows else 0
+                        c_ = tm.fold(tm.as_formula(t.args[0]) if hasattr(
+                            tm, "as_formula") else t.args[0], env)
+                        if c_ is None and t.args[0] is rd.raw:
+                            c_ = not empty
+                        if c_ is not None:
+                            return val(t.args[1] if c_ else t.args[2])
                     return None
                 x, y = val(a.args[1]), val(a.args[2])
                 if x is not None and y is not None:
@@ -398,6 +408,7 @@ def check(ctx):
                           for c in rd.conv for L_ in wrong)
             empty_guarded = all(tm.fold(
                 c.live, lambda t: False if t is rd.raw else None) is False
+                or tm.fold(c.live, _case_env(rd, 0, empty=True)) is False
                 for c in rd.conv)
             okf = guarded and empty_guarded and bool(rd.conv)
             ctx.ob("C07.5", rd.f, okf,
@@ -1087,8 +1098,16 @@ def _transform(ctx, prog):
             a.args[2] is tm.NONE
             for x in scale.walk() if x.op == "ite"
             for a in tm.atoms(x.args[0]))
+        # data.get("scale", 1): the dictionary's own presence test — a 0 in
+        # the file is returned as 0
+        get_default = bool(gets) and all(
+            len(g.args[1]) == 2 and not g.args[2] and
+            tm.is_const(g.args[1][0], "scale") and
+            tm.is_const(g.args[1][1], 1) for g in gets) and all(
+            a in gets for a in salts) and not any(
+            x.op == "boolop" for x in scale.walk())
         truthy_default = any(x.op == "boolop" for x in scale.walk()) or \
-            (bool(gets) and not none_tested)
+            (bool(gets) and not none_tested and not get_default)
         presence = none_tested or any(
             a.op == "cmp" and a.args[0] in ("In", "NotIn") and
             tm.is_const(a.args[1], "scale")
@@ -1096,7 +1115,12 @@ def _transform(ctx, prog):
             for a in tm.atoms(x.args[0]))
         has_key = has_key or (none_tested and any(
             a in gets for a in salts))
-        if truthy_default:
+        if get_default:
+            ctx.ob("C07.5", f, True,
+                   "JSON transform: scale is data.get('scale', 1): the "
+                   "file's value when the key is present, else 1",
+                   key="C07.5:json:scale-as-is")
+        elif truthy_default:
             ctx.ob("C07.5", f, False,
                    f"JSON transform: scale = {fmt(scale)[:120]} — a "
                    f"truthiness/`get` default replaces a scale of 0 (an "
